@@ -78,12 +78,11 @@ var summaries = map[string]summary{
 	"jrpc2.randbytes":    {"", "crypto/rand"},
 }
 
-// Packages of the module outside the anchors that only plumb values through
-// context.Context or are pure helpers: opaque (arguments are read).  The RPC
-// counter behind wctx.CounterAdd/Counter (a *uint64 stored in the context) is
-// therefore not in the skeleton; it is covered by the race workloads only.
+// Packages of the module outside the anchors that are pure helpers: opaque
+// (arguments are read).  wctx is handled by the translator itself (context
+// values; the RPC counter behind wctx.CounterAdd/Counter is a location of the
+// skeleton, see translate.go "context values").
 var opaquePkgs = map[string]string{
-	"wctx":          "context plumbing",
 	"wslog":         "logging handler",
 	"wstrings":      "pure helpers",
 	"bint":          "pure helpers",
